@@ -498,7 +498,7 @@ pub struct TrioWorld {
 
 impl TrioWorld {
     pub fn build(cfg: &TrioCfg) -> Result<TrioWorld, String> {
-        let mut w = World::new_with_fund(&USERS, &["uaaa", "ubbb", "uccc"], USER_FUND);
+        let mut w = World::new_with_fund(&USERS, &["uaaa", "uaaab", "uccc"], USER_FUND);
         w.setup_pool_network();
         w.add_account("collector-two");
         w.add_account("collector-three");
@@ -508,7 +508,8 @@ impl TrioWorld {
                 let t = w.create_cw20_with_fund(&format!("tok{}", ["a", "b", "c"][i]), cfg.decimals[i], USER_FUND);
                 infos.push(token(&t));
             } else {
-                let d = ["uaaa", "ubbb", "uccc"][i];
+                // the second denom has the first as a proper prefix: asset look-ups by identifier must not confuse them
+                let d = ["uaaa", "uaaab", "uccc"][i];
                 w.register_native_decimals(d, cfg.decimals[i]);
                 infos.push(native(d));
             }
